@@ -27,7 +27,14 @@ RULE = ("one case = one estimator fitted ONCE by the real code, then applied to 
         "(12-24 time points, 1-3 variables, 2-3 classes, column names var_i / dim_i, configurations "
         "drawn per case), plus for the dictionary-based estimators a 'same vocabulary, different "
         "proportions' family (series made of slow / fast sine segments in different proportions and "
-        "orders: bags with the same words and different counts); in addition the build regenerates the row-flow table of all 52 apply-time "
+        "orders: bags with the same words and different counts) and a 'flat stretch' family (data=flat: "
+        "integer / quarter valued lively series of amplitude 2-20 in which instances hold an exactly "
+        "constant stretch - level 0, +-0.25 .. +-5, any position, length from 2 points to the whole "
+        "series - with at least one NON-FIRST instance holding a non-zero stretch at least as long as "
+        "the estimator's window right after an instance with ordinary variance; SFA directly (norm "
+        "on / off, windows 4-16), IndividualBOSS / IndividualTDE / SAX with the same windows, BOSSEnsemble "
+        "/ ContractableBOSS (min_window 18) and MUSE with whole-series stretches, a rotating 6 of the "
+        "other learned estimators, and each closed-form transformer once); in addition the build regenerates the row-flow table of all 52 apply-time "
         "methods (Gen.v) and checks it in Coq. non-trivial = the batch was accepted, has >= 2 pairwise different output "
         "rows and at least one non-identity permutation was run; distinct = distinct canonical JSON case")
 TRUSTED = [
@@ -376,6 +383,73 @@ def _gen_motif(rng, est):
     return c
 
 
+FLAT_DICT_ESTS = ["sfa"] * 7 + ["iboss"] * 6 + ["boss"] * 2 + ["cboss"] * 2 + ["itde"] * 3 + ["sax", "muse"]
+FLAT_OTHER_ESTS = ["riseg", "rife", "plateau", "dslope", "dwt", "slope", "hog1d", "mp", "pca", "rocket",
+                   "tab_f", "pad_f", "rowview", "tsf", "rise", "colens", "tsfreg", "fpe", "stsf", "shapelet"]
+FLAT_LEVELS = [1.0, -1.0, 1.0, -1.0, 0.5, -0.5, 2.0, -2.0, 3.0, -3.0, 5.0, 0.25, 0.0]
+
+
+def _gen_flat(rng, est):
+    """flat stretches: integer / quarter valued 'lively' series (exact float arithmetic) in which
+    some instances hold an exactly constant stretch (zero-variance sliding windows) at some level,
+    position and length - up to the whole series.  At least one instance that is NOT first has a
+    stretch at a non-zero level that is at least as long as the estimator's window, and the
+    instance before it has ordinary variance there: per-window statistics (std, mean) that are
+    carried over from one instance to the next show exactly on such batches"""
+    c = _gen_learned(rng, est)
+    dictionary = est in ("sfa", "iboss", "boss", "cboss", "itde", "sax", "muse")
+    big = est in ("boss", "cboss", "muse")
+    m = rng.choice([24, 32, 40]) if big else rng.choice([16, 20, 24, 32])
+    if est == "rise":
+        m = rng.choice([24, 32])
+    w = rng.choice([4, 8, 8, 8, 6, 10, 16])      # powers of two: 1/w is exact, so are mean and std
+    wl = rng.choice([2, 4])
+    if w == 4:
+        wl = 2       # word_length + 2 (norm) must stay within the window's Fourier coefficients
+    norm = rng.random() < 0.3
+    c.update(data="flat", m=m, round=None, k=2, dup=rng.random() < 0.2,
+             n_train=rng.choice([8, 10, 12]), n_test=rng.choice([2, 3, 3, 4, 5]),
+             amp=rng.choice([2, 5, 10, 20, 20, 20]), valkind=rng.choice(["int", "int", "quarter"]))
+    if dictionary:
+        c["ncols"] = 1
+    if est == "sfa":
+        c["cfg"] = {"word_length": wl, "alphabet_size": rng.choice([2, 4, 4]), "window_size": w,
+                    "norm": norm, "remove_repeat_words": rng.random() < 0.4,
+                    "bigrams": rng.random() < 0.2, "pandas": rng.random() < 0.3}
+    elif est == "iboss":
+        c["cfg"] = {"window_size": w, "word_length": wl, "norm": norm}
+    elif est == "itde":
+        c["cfg"] = {"window_size": w, "word_length": wl, "norm": norm, "levels": rng.choice([1, 2])}
+    elif est == "sax":
+        c["cfg"] = {"word_length": wl, "alphabet_size": rng.choice([3, 4]), "window_size": w}
+    elif est == "mp":
+        c["cfg"] = {"m": rng.choice([4, 6])}
+    elif est in ("boss", "cboss"):
+        # members' word lengths go up to 16: windows of at least 18 points keep word_length + 2
+        # within the window's Fourier coefficients (otherwise SFA._create_word indexes past them)
+        m = rng.choice([32, 40])
+        c["m"] = m
+        c["cfg"] = dict(c["cfg"], min_window=18)
+    need = m if big else w      # ensemble members pick their own windows: whole-series stretches
+    n = c["n_test"]
+
+    def stretch(min_len):
+        ln = m if rng.random() < 0.3 else rng.randint(min(min_len, m), m)
+        return [rng.randint(0, m - ln), ln, rng.choice(FLAT_LEVELS)]
+    flats = [stretch(rng.choice([2, need, need])) if rng.random() < 0.35 else None for _ in range(n)]
+    j = rng.randint(1, n - 1)              # the guaranteed one: not first, after a lively instance
+    lvl = rng.choice([v for v in FLAT_LEVELS if v != 0.0])
+    ln = m if (big or rng.random() < 0.3) else rng.randint(need, m)
+    flats[j] = [rng.randint(0, m - ln), ln, lvl]
+    flats[j - 1] = None
+    if j == n - 1:
+        c["dup"] = False      # the duplicate would overwrite the guaranteed stretch
+    c["flats"] = flats
+    c["trflats"] = [stretch(2) if rng.random() < 0.15 else None for _ in range(c["n_train"])]
+    c["perms"], c["sub"] = _variants(rng, n)
+    return c
+
+
 def _expected_methods():
     """the pinned list of coq/C16/Bridge.v (expected_translated)"""
     import os
@@ -430,6 +504,20 @@ def gen_cases(rng, tier):
     for _ in range(mult):
         for est in MOTIF_ESTS:
             cases.append(_gen_motif(rng, est))
+    for _ in range(mult):       # flat stretches (appended last: the earlier streams stay as they were)
+        for est in FLAT_DICT_ESTS + rng.sample(FLAT_OTHER_ESTS, 6):
+            cases.append(_gen_flat(rng, est))
+        for t in CLOSED:      # the closed family with a constant stretch in an instance that is not first
+            c = _gen_closed(rng, t)
+            X = c["X"]
+            j = rng.randint(1, len(X) - 1)
+            lvl = rng.choice(FLAT_LEVELS)
+            for s in X[j]:
+                ln = rng.randint(1, len(s))
+                a = rng.randint(0, len(s) - ln)
+                s[a:a + ln] = [lvl] * ln
+            c["flat"] = j
+            cases.append(c)
     return cases
 
 
@@ -584,7 +672,24 @@ def _problem(case):
         return cols
     ctr = [i % k for i in range(case["n_train"])]
     cte = [int(r.randint(0, k)) for _ in range(case["n_test"])]
-    if case.get("data") == "motif":
+    if case.get("data") == "flat":
+        amp, q = case["amp"], (4.0 if case.get("valkind") == "quarter" else 1.0)
+        step = max(1, amp // 3)
+
+        def lively(c, flat):
+            cols = []
+            for j in range(nc):
+                v = r.randint(-amp, amp + 1, size=m).astype(float)
+                v[: m // 2] += c * step
+                v = v / q
+                if flat is not None:
+                    a, ln, lvl = flat
+                    v[a:a + ln] = lvl + (j if lvl != 0.0 else 0)
+                cols.append([float(x) for x in v])
+            return cols
+        tr = [lively(c, f) for c, f in zip(ctr, case["trflats"])]
+        te = [lively(c, f) for c, f in zip(cte, case["flats"])]
+    elif case.get("data") == "motif":
         S = case["segs"]
         tt = np.arange(10)
         slow, fast = np.sin(2 * np.pi * tt / 10), np.sin(2 * np.pi * tt / 5)
@@ -617,11 +722,13 @@ def _problem(case):
 def _make_clf(name, cfg, rs):
     if name == "boss":
         from sktime.classification.dictionary_based._boss import BOSSEnsemble
-        return BOSSEnsemble(max_ensemble_size=cfg.get("max_ensemble_size", 3), random_state=rs)
+        return BOSSEnsemble(max_ensemble_size=cfg.get("max_ensemble_size", 3),
+                            min_window=cfg.get("min_window", 10), random_state=rs)
     if name == "cboss":
         from sktime.classification.dictionary_based._cboss import ContractableBOSS
         return ContractableBOSS(n_parameter_samples=cfg.get("n_parameter_samples", 8),
-                                max_ensemble_size=cfg.get("max_ensemble_size", 4), random_state=rs)
+                                max_ensemble_size=cfg.get("max_ensemble_size", 4),
+                                min_window=cfg.get("min_window", 10), random_state=rs)
     if name == "iboss":
         from sktime.classification.dictionary_based._boss import IndividualBOSS
         return IndividualBOSS(window_size=cfg.get("window_size", 8), word_length=cfg.get("word_length", 4),
@@ -1140,7 +1247,16 @@ def shrink(case):
             n = d["n_test"]
             d["perms"] = [[i for i in p if i < n] for p in c["perms"]]
             d["sub"] = [i for i in c["sub"] if i < n] or [0]
+            if c.get("flats") is not None:
+                d["flats"] = c["flats"][:n]
             yield d
+        if c.get("data") == "flat":
+            for key in ("flats", "trflats"):
+                for i, f in enumerate(c[key]):
+                    if f is not None:
+                        d = dict(c)
+                        d[key] = c[key][:i] + [None] + c[key][i + 1:]
+                        yield d
         for key, lo in (("n_train", 6), ("m", 12)):
             if c[key] > lo:
                 d = dict(c)
